@@ -54,3 +54,77 @@ Definition op_price (Rec Field : Type) (set : Rec -> Field -> Q -> Rec * bool) (
   := hop_price Rec price dflt.
 Definition op_brentq (Rec Field : Type) (set : Rec -> Field -> Q -> Rec * bool) (initialisation : Rec -> outcome Rec) (price : Rec -> Q) (dflt : Rec)
   := hop_brentq Rec.
+
+(* ------------------------------------------------------------------ wave 7 (audit 4, B3): the raises that the operations above
+   cannot produce.  (1) `model_cls(spot=..., parameters=q)`: the constructor of the exponential model may REFUSE the parameters
+   object with ValueError (hem.py: eta1 <= 1; cgmy.py: m < 1 or (m = 1 and y <= 0); exponentialoflevymodel.py: E[exp(L_1)] not
+   finite / not real) -- `model_ok : Rec -> bool` is that test, one more component of the class description (any interpretation).
+   (2) scipy.optimize.brentq(f, a, b) (scipy 1.18: Zeros/brentq.c) first calls f(a), then f(b); returns a (resp. b) if that value
+   is 0; raises ValueError("f(a) and f(b) must have different signs") if both are non-zero with the same sign; only then iterates
+   (trial values xs of ITS choosing).  An exception inside f propagates. *)
+Section HeapOpsG.
+  Variable Rec : Type.
+  Variable model_ok : Rec -> bool.
+  Variable dflt : Rec.
+  Definition hop_model (st : Heap Rec) (q : nat) : option nat := if model_ok (load Rec dflt st q) then Some q else None.
+  Definition hop_brentq_ab (F : Heap Rec -> Q -> option (Heap Rec * Q)) (st : Heap Rec) (a b : Q) (xs : list Q) : option (Heap Rec) :=
+    match F st a with
+    | None => None
+    | Some (st1, fa) =>
+        match F st1 b with
+        | None => None
+        | Some (st2, fb) =>
+            if Qeq_bool fa 0 || Qeq_bool fb 0 then Some st2
+            else if Qle_bool (fa * fb) 0 then hop_brentq Rec F st2 xs else None
+        end
+    end.
+End HeapOpsG.
+Definition op_model (Rec Field : Type) (set : Rec -> Field -> Q -> Rec * bool) (initialisation : Rec -> outcome Rec) (price : Rec -> Q) (dflt : Rec)
+  (model_ok : Rec -> bool) := hop_model Rec model_ok dflt.
+Definition op_brentq_ab (Rec Field : Type) (set : Rec -> Field -> Q -> Rec * bool) (initialisation : Rec -> outcome Rec) (price : Rec -> Q) (dflt : Rec)
+  (model_ok : Rec -> bool) := hop_brentq_ab Rec.
+
+(* hand-written heap model WITH these two raises (the one of Model/Params.v has neither): Proofs/C20_Calib.v proves the generated
+   program equal to it, that whenever it returns the model of Params.v returns the same heap on the trial list [a; b] or a :: b :: xs
+   (so every clause of C20_calibration_spec_partial applies), and when exactly it raises. *)
+Section CalibrationG.
+  Variable Rec Field : Type.
+  Variable set : Rec -> Field -> Q -> Rec * bool.
+  Variable initialisation : Rec -> outcome Rec.
+  Variable price : Rec -> Q.
+  Variable dflt : Rec.
+  Variable model_ok : Rec -> bool.
+  Notation assign_init := (assign_init Rec Field set initialisation).
+  Notation load := (load Rec dflt).
+  Definition calibration_fun_g (q : nat) (f : Field) (market : Q) (st : Heap Rec) (x : Q) : option (Heap Rec * Q) :=
+    match assign_init (load st q) f x with
+    | Some r'' => if model_ok r'' then Some (store Rec st q r'', price r'' - market) else None
+    | None => None
+    end.
+  Fixpoint run_trials_g (q : nat) (f : Field) (market : Q) (st : Heap Rec) (xs : list Q) : option (Heap Rec) :=
+    match xs with
+    | [] => Some st
+    | x :: rest => match calibration_fun_g q f market st x with Some (st', _) => run_trials_g q f market st' rest | None => None end
+    end.
+  Definition calibrate_model_parameter_g (h : Heap Rec) (p : nat) (f : Field) (ab : Q * Q) (market : Q) (xs : list Q) : option (Heap Rec) :=
+    let '(h1, q) := deepcopy Rec dflt h p in
+    match calibration_fun_g q f market h1 (fst ab) with
+    | None => None
+    | Some (st1, fa) =>
+        match calibration_fun_g q f market st1 (snd ab) with
+        | None => None
+        | Some (st2, fb) =>
+            if Qeq_bool fa 0 || Qeq_bool fb 0 then Some st2
+            else if Qle_bool (fa * fb) 0 then run_trials_g q f market st2 xs else None
+        end
+    end.
+  Definition run_default_calibration_g (h : Heap Rec) (p : nat) (f : Field) (ab : Q * Q) (market : Q) (xs : list Q) (x : Q) : option (Heap Rec * nat) :=
+    match calibrate_model_parameter_g h p f ab market xs with
+    | None => None
+    | Some h1 => let '(h2, q2) := deepcopy Rec dflt h1 p in
+                 match assign_init (load h2 q2) f x with
+                 | Some r'' => if model_ok r'' then Some (store Rec h2 q2 r'', q2) else None
+                 | None => None
+                 end
+    end.
+End CalibrationG.
